@@ -490,9 +490,50 @@ impl Write for Collect {
     }
 }
 
+thread_local! {
+    /// consumer behaviour "calls again after an error": after a drain ended in an error the reader is
+    /// called a few more times (results ignored; a panic is what the caller's guard is looking for)
+    static POKE_AFTER_ERROR: std::cell::Cell<bool> = const { std::cell::Cell::new(false) };
+}
+
+pub fn set_poke_after_error(on: bool) {
+    POKE_AFTER_ERROR.with(|p| p.set(on));
+}
+
+fn poke<R: Read>(r: &mut R) {
+    if POKE_AFTER_ERROR.with(|p| p.get()) {
+        let mut buf = [0u8; 96];
+        for _ in 0..3 {
+            let _ = r.read(&mut buf);
+        }
+        let mut rest = Vec::new();
+        let _ = r.by_ref().take(1 << 16).read_to_end(&mut rest);
+    }
+}
+
 /// Drain `r` to its end.  Returns everything released before the end/err, and how it ended.
 /// `max` bounds the amount accepted (guards against readers that never end).
 pub fn drain<R: BufRead>(r: &mut R, c: &Consumer, max: usize) -> (Vec<u8>, io::Result<()>) {
+    let (out, end) = drain_inner(r, c, max);
+    if end.is_err() {
+        if POKE_AFTER_ERROR.with(|p| p.get()) {
+            let _ = r.fill_buf().map(|b| b.len());
+        }
+        poke(r);
+    }
+    (out, end)
+}
+
+/// Same for a plain `Read` (FillConsume degrades to a read loop with the same sizes).
+pub fn drain_read<R: Read>(r: &mut R, c: &Consumer, max: usize) -> (Vec<u8>, io::Result<()>) {
+    let (out, end) = drain_read_inner(r, c, max);
+    if end.is_err() {
+        poke(r);
+    }
+    (out, end)
+}
+
+fn drain_inner<R: BufRead>(r: &mut R, c: &Consumer, max: usize) -> (Vec<u8>, io::Result<()>) {
     if let Consumer::FillConsume(sizes) = c {
         let mut out = Vec::new();
         let too_much = || io::Error::other("sim: consumer got more than the bound (runaway reader)");
@@ -523,11 +564,10 @@ pub fn drain<R: BufRead>(r: &mut R, c: &Consumer, max: usize) -> (Vec<u8>, io::R
             }
         }
     }
-    drain_read(r, c, max)
+    drain_read_inner(r, c, max)
 }
 
-/// Same for a plain `Read` (FillConsume degrades to a read loop with the same sizes).
-pub fn drain_read<R: Read>(r: &mut R, c: &Consumer, max: usize) -> (Vec<u8>, io::Result<()>) {
+fn drain_read_inner<R: Read>(r: &mut R, c: &Consumer, max: usize) -> (Vec<u8>, io::Result<()>) {
     let mut out = Vec::new();
     let too_much = || io::Error::other("sim: consumer got more than the bound (runaway reader)");
     match c {
